@@ -115,7 +115,8 @@ func GetIdentityFieldValuesMap(ctx context.Context, reflectValue reflect.Value, 
 		notZero, zero bool
 	)
 
-	if reflectValue.Kind() == reflect.Ptr ||
+	// (a model value may be given as pointer to a pointer: Model(&u) with u a *T)
+	for reflectValue.Kind() == reflect.Ptr ||
 		reflectValue.Kind() == reflect.Interface {
 		reflectValue = reflectValue.Elem()
 	}
